@@ -49,6 +49,8 @@ func c03Parts() (prefixes [][]gen.Op, kinds []string, rights []*gen.Pipeline, co
 		tbl("R", &gen.As{Name: gen.Ident{Name: "Q"}}),
 		tbl("R", &gen.Top{N: num("2"), By: gen.SortTerm{X: gen.Col("y")}}, take1),
 		tbl("R", take1, sortBy("y")),
+		tbl("R", &gen.Top{N: num("2"), By: gen.SortTerm{X: gen.Col("k")}}),
+		tbl("R", &gen.Sort{Kw: "sort", Terms: []gen.SortTerm{{X: gen.Col("k"), Dir: "asc"}}}, &gen.Take{Kw: "take", N: num("2")}),
 		// reads the name that the left prefix `as A` defines (undefined - and skipped - with other prefixes)
 		tbl("A"),
 		tbl("A", gt("x"), proj("k", "x")),
@@ -197,6 +199,9 @@ func c03Main(r *run.Runner) {
 		"L | where x > 0 | join kind=inner (R) on k | project x, y | where x > 0 | join kind=leftouter (C | project w) on $left.x == $right.w | take 1",
 		"L | where x > 0 | join kind=innerunique (R) on k | project x, y | join kind=leftouter (C | project w) on $left.y == $right.w | limit 1",
 		"L | extend z = x | join kind=inner (R | project rk = k, y) on $left.k == $right.rk | join kind=leftouter (C | project ck = k, w) on $left.k == $right.ck | take 1 | project x, y, w",
+		// an `as` name whose only reader is a join nested inside another right-hand side
+		"L | where x > 0 | as T2 | where x > 1 | join kind=inner (R | project rk = k, y | join kind=leftouter (T2 | project k2 = k, x2 = x) on $left.rk == $right.k2 | project rk, y, x2) on $left.k == $right.rk | project x, y, x2 | sort by x, y, x2",
+		"L | as T3 | project k, x | join (R | project rk = k, y | join kind=inner (C | project ck = k, w | join kind=inner (T3 | project k3 = k, x3 = x) on $left.ck == $right.k3 | project ck, w, x3) on $left.rk == $right.ck | project rk, y, w, x3) on $left.k == $right.rk | project x, y, w, x3 | sort by x, y, w, x3",
 		// a named join result that is limited / sorted / filtered afterwards and read again in full by a later right-hand side
 		"L | join kind=inner (R | project rk = k, y) on $left.k == $right.rk | as X | top 1 by y | project x, y | join kind=inner (X | project x2 = x, y2 = y) on $left.x == $right.x2 | project x, y, y2 | sort by x, y, y2",
 		"L | join kind=leftouter (R | project rk = k, y) on $left.k == $right.rk | as X | take 1 | project x | join kind=inner (X | project x2 = x, y2 = y) on $left.x == $right.x2 | count",
